@@ -256,7 +256,13 @@ fn gen_plan(p: &mut Prng, same_as: Option<&Plan>) -> Plan {
     // stuck decisions are where stale shared state would show
     let cls = if with_tt { 0 } else { *p.pick(&[0usize, 0, 8, 8, 11, 1]) };
     let script = gen_script(p, cls, if with_tt { 1700 } else { 96 });
-    let zeros = p.below(3) as usize * 16;
+    // leading all-zero source blocks: 0..2, and now and then a run beyond 2^16 blocks (a
+    // bounded or process-wide count of redraws would make LATER constructions differ)
+    let zeros = if p.chance(1, 10) && !crate::util::REDUCED.load(std::sync::atomic::Ordering::Relaxed) {
+        *p.pick(&[65_536usize, 65_537, 100_000, 30_000, 40_000]) * 16
+    } else {
+        p.below(3) as usize * 16
+    };
     let mut src = vec![0u8; zeros];
     src.extend(p.bytes(2100));
     Plan { type_idx: ti, ctor: p.below(4) as u8, seed, x: p.u64(), src, ops, script, tail: p.u64(), rounds }
